@@ -86,45 +86,47 @@ pub fn check_leaves(expected: &[Leaf], observed: &[ObsLeaf]) -> Vec<Failure> {
     let mut fails = Vec::new();
     let mut used = vec![false; observed.len()];
     let mut matched = vec![false; expected.len()];
-    // predictable messages first, so that `Msg::Any` cannot steal a leaf
-    let mut order: Vec<usize> = (0..expected.len()).collect();
-    order.sort_by_key(|i| matches!(expected[*i].msg, Msg::Any) as u8);
-
-    // pass 1: everything agrees
-    for &i in &order {
-        let e = &expected[i];
-        if let Some(j) = (0..observed.len()).find(|&j| {
-            !used[j] && msg_matches(&e.msg, &observed[j].msg) && path_matches(&e.path, &observed[j].path) && span_matches(&e.span, &observed[j].span)
-        }) {
-            used[j] = true;
-            matched[i] = true;
+    // predictable messages first (all three passes), so that `Msg::Any` cannot steal a leaf
+    let specific: Vec<usize> = (0..expected.len()).filter(|i| !matches!(expected[*i].msg, Msg::Any)).collect();
+    let vague: Vec<usize> = (0..expected.len()).filter(|i| matches!(expected[*i].msg, Msg::Any)).collect();
+    let order: Vec<usize> = specific.iter().chain(vague.iter()).copied().collect();
+    for group in [&specific, &vague] {
+        // pass 1: everything agrees
+        for &i in group.iter() {
+            let e = &expected[i];
+            if let Some(j) = (0..observed.len()).find(|&j| {
+                !used[j] && msg_matches(&e.msg, &observed[j].msg) && path_matches(&e.path, &observed[j].path) && span_matches(&e.span, &observed[j].span)
+            }) {
+                used[j] = true;
+                matched[i] = true;
+            }
         }
-    }
-    // pass 2: message and location agree, span does not
-    for &i in &order {
-        if matched[i] {
-            continue;
+        // pass 2: message and location agree, span does not
+        for &i in group.iter() {
+            if matched[i] {
+                continue;
+            }
+            let e = &expected[i];
+            if let Some(j) = (0..observed.len()).find(|&j| !used[j] && msg_matches(&e.msg, &observed[j].msg) && path_matches(&e.path, &observed[j].path)) {
+                used[j] = true;
+                matched[i] = true;
+                fails.push(fail(
+                    span_rule(e),
+                    format!("leaf `{}` has span {:?}, expected {:?} (kind {})", observed[j].text, observed[j].span, e.span, e.kind),
+                ));
+            }
         }
-        let e = &expected[i];
-        if let Some(j) = (0..observed.len()).find(|&j| !used[j] && msg_matches(&e.msg, &observed[j].msg) && path_matches(&e.path, &observed[j].path)) {
-            used[j] = true;
-            matched[i] = true;
-            fails.push(fail(
-                span_rule(e),
-                format!("leaf `{}` has span {:?}, expected {:?} (kind {})", observed[j].text, observed[j].span, e.span, e.kind),
-            ));
-        }
-    }
-    // pass 3: message agrees, location does not
-    for &i in &order {
-        if matched[i] {
-            continue;
-        }
-        let e = &expected[i];
-        if let Some(j) = (0..observed.len()).find(|&j| !used[j] && !matches!(e.msg, Msg::Any) && msg_matches(&e.msg, &observed[j].msg)) {
-            used[j] = true;
-            matched[i] = true;
-            fails.push(fail("C02.R4", format!("leaf `{}` is located at {:?}, expected {:?}", observed[j].text, observed[j].path, e.path)));
+        // pass 3: message agrees, location does not
+        for &i in group.iter() {
+            if matched[i] {
+                continue;
+            }
+            let e = &expected[i];
+            if let Some(j) = (0..observed.len()).find(|&j| !used[j] && !matches!(e.msg, Msg::Any) && msg_matches(&e.msg, &observed[j].msg)) {
+                used[j] = true;
+                matched[i] = true;
+                fails.push(fail("C02.R4", format!("leaf `{}` is located at {:?}, expected {:?}", observed[j].text, observed[j].path, e.path)));
+            }
         }
     }
     for &i in &order {
